@@ -221,3 +221,15 @@ META["C17"]["rule"] += (" A neighbour file of the same factories is written, fin
                         "every reader returns exactly its part's bytes.")
 META["C11"]["rule"] += (" A fault-free run in which no served playlist state calls for a stop must not end with an error (unexpected-stop). Byte ranges span several "
                         "resources and EXT-X-MAP may carry a BYTERANGE; with the real muxer as origin the primary URL may carry a query that every request must keep.")
+
+META["C05"]["rule"] += (" Unknown-URI probes include part-shaped names around real segment names. parts-burst profile (Low-Latency, mostly Directory storage): "
+                        "writer and 2-4 readers truly concurrent; every part a playlist lists is fetched at once and must answer 200 with the bytes it had "
+                        "before, unless its segment has left the window by the time a fresh playlist is fetched.")
+META["C11"]["rule"] += (" ll-stub profile: a Low-Latency origin of pre-generated content (parts by URI or as byte ranges, published at fixed instants, hinted "
+                        "part held until then): every playlist is followed by exactly its hint (URI and Range), every hint by a reload, _HLS_skip=YES exactly "
+                        "when CAN-SKIP-UNTIL was advertised. ErrClientEOS only after the last segment of every stream was requested.")
+META["C12"]["rule"] += (" Further fault kind: a body cut short of its announced length (error must be the unexpected-EOF one). Close is also called from inside the "
+                        "n-th user callback. handover profile: the stream processor is held 50-300 ms before each hand-over to a track processor, segments of "
+                        "several fragments, Close on a time grid. ll-close profile: Close on a time grid against the Low-Latency stub origin publishing up to 50x "
+                        "faster than real time. A run in which every goroutine ends up blocked with no timer pending is the verdict 'deadlock'.")
+META["C13"]["rule"] += (" Further variants: init sections declaring a time scale of 0, 1 or 2^32-1; samples of size zero; playlists that lose every line of one tag kind.")
